@@ -15,7 +15,7 @@ RULE = ("random operation sequences between syncs (create, overwrite, append, tr
         "sync, diff exits 2 exactly when the model says a file or link was added/removed/changed; after a successful sync diff "
         "exits 0 with no change tags, list -l equals the model's files and links (size, mtime, target; hard-link groups up to the "
         "choice of the name recorded as file), decoded empty dirs equal the model's, check exits 0, and EVERY recorded block hash "
-        "equals the frozen reference hash of the model's bytes (so nothing changed was trusted instead of read). In 40 % of the changing rounds an incomplete sync (-B / -S -B / killed after the parity update) comes first: diff must exit 2 while a stripe holding a file has a block without valid parity. distinct = "
+        "equals the frozen reference hash of the model's bytes (so nothing changed was trusted instead of read). In 40 % of the changing rounds an incomplete sync (-B / -S -B / killed after the parity update) comes first: diff must exit 2 while a stripe holding a file has a block without valid parity. One case in eight replaces two data disks (UUID to other UUID) while two same-size same-stamp files exchange inode numbers. distinct = "
         "(configuration, operation sequence).")
 
 ORDERS = [None, "--test-force-order-alpha", "--test-force-order-inode", "--test-force-order-dir", "--test-force-order-physical"]
